@@ -1407,7 +1407,7 @@ func genHistory(r *rng, cfg genCfg, o openOpts) []string {
 		}
 		if r.chance(1, 8) {
 			L = append(L, "dump w", "rollback")
-		} else if cfg.faults && len(readers) == 0 && r.chance(1, 5) {
+		} else if cfg.faults && (len(readers) == 0 || cfg.backups) && r.chance(1, 5) || cfg.backups && len(readers) > 0 && r.chance(1, 4) {
 			// a commit whose first or second write fails: nothing reaches the meta page, the transaction is rolled back
 			// physically (free list reloaded / rebuilt) and the history goes on from the previous state
 			L = append(L, "dump w", fmt.Sprintf("commitfail %d", r.intn(2)))
